@@ -145,7 +145,9 @@ func robustOne(rc *RunCtx) *Violation {
 	}
 	// parse options that must not change what the clauses are about
 	var popts []participle.ParseOption
-	if simrt.Choose(6) == 1 {
+	// (short inputs only: a trace line costs real time proportional to the nesting depth, which the
+	// logical step cap does not see — a 400-level document traced for 10^7 steps took 12 minutes)
+	if simrt.Choose(6) == 1 && len(d) <= 300 {
 		popts = append(popts, participle.Trace(discardSink{}))
 		variant += " Trace"
 		rc.probe("parsed with the Trace option (output discarded)")
